@@ -137,6 +137,7 @@ class Interp:
         self.top = None          # outermost frame (locals can be inspected after a Stop)
         self.trace = []          # (function, line) of primitive emissions, for reports
         self.stop_at = None      # (function, node id): evaluation of that node ends the interpretation (Stop)
+        self.oracle = None       # callable(frame, node, op, a, b) -> bool deciding an ordering of symbolic values (a case split made by the rule)
 
     # ------------------------------------------------------------------ calls
     def call_fn(self, fn, args, this=None):
@@ -153,6 +154,25 @@ class Interp:
         except _Return as r:
             return r.v
         return None
+
+
+    def run_ctor(self, ctor, args, obj):
+        """interpret a constructor on the (default-initialised) record `obj`: member initialisers, then the body."""
+        if ctor.body is None or ctor.body < 0:
+            raise AnalysisBroken("summ: constructor %s has no body" % ctor.qn)
+        if len(args) != len(ctor.params):
+            raise AnalysisBroken("summ: %s called with %d arguments" % (ctor.qn, len(args)))
+        fr = Frame(self, ctor, {p["d"]: a for p, a in zip(ctor.params, args)}, obj)
+        for ini in ctor.d.get("inits", []):
+            if not ini.get("field"):
+                raise AnalysisBroken("summ: base-class initialiser in %s" % ctor.qn)
+            v = fr.eval(ini["e"])
+            obj.f[ctor.rec + "::" + ini["field"]] = list(v) if isinstance(v, list) else v
+        try:
+            fr.exec(ctor.body)
+        except _Return:
+            pass
+        return obj
 
 
 class Frame:
@@ -382,6 +402,12 @@ class Frame:
             cn = strip_targs(n.get("cname") or "")
             if cn.startswith("std::basic_string::") and len(args) >= 1:
                 return self.eval(args[0])
+            if not args and strip_targs(n.get("crec") or "") in ("std::vector", "std::list"):
+                return []
+            if not args and strip_targs(n.get("crec") or "") == "std::basic_string":
+                return ""
+            if not args and strip_targs(n.get("crec") or "") == "std::map":
+                return {}
             if len(args) == 1 and "iterator" in strip_targs(n.get("crec") or "") and "iterator" in (self.nodes[args[0]].get("t") or ""):
                 return self.eval(args[0])        # iterator -> const_iterator conversion
             if strip_targs(n.get("crec") or "") == "std::pair" and len(args) == 2:
@@ -431,6 +457,8 @@ class Frame:
                         a, b = d, 0
                     elif op in ("==", "!="):
                         return (op == "!=")      # generic symbolic values differ
+                    elif self.ip.oracle is not None:
+                        return bool(self.ip.oracle(self, i, op, sp.sympify(a), sp.sympify(b)))
                     else:
                         self.bad(i, "ordering of symbolic values")
                 r = {"<": a < b, "<=": a <= b, ">": a > b, ">=": a >= b, "==": a == b, "!=": a != b}[op]
@@ -527,6 +555,14 @@ class Frame:
                     return None
                 if short == "size" and not args:
                     return len(obj)
+                if short == "resize" and len(args) in (1, 2):
+                    nn_ = self.eval(args[0])
+                    fill_ = self.eval(args[1]) if len(args) == 2 else 0
+                    if not isinstance(nn_, int) or nn_ < 0:
+                        self.bad(i, "resize to a non-constant size")
+                    del obj[nn_:]
+                    obj.extend([fill_] * (nn_ - len(obj)))
+                    return None
                 if short in ("begin", "cbegin") and not args:
                     return ListIter(obj, 0)
                 if short in ("end", "cend") and not args:
@@ -584,6 +620,24 @@ class Frame:
                 if not (isinstance(a, (int, float, sp.Rational)) and isinstance(b, (int, float, sp.Rational))) or isinstance(a, bool):
                     self.bad(i, "max/min of symbolic values")
                 return max(a, b) if cn.endswith("max") else min(a, b)
+            if cn == "std::accumulate" and len(args) in (3, 4):
+                b, e, acc = self.eval(args[0]), self.eval(args[1]), self.eval(args[2])
+                if len(args) == 4:
+                    fo = self.nodes[args[3]]
+                    while fo["k"] in ("cast", "defarg") or (fo["k"] == "construct" and fo.get("copy") and len(fo.get("args", [])) == 1):
+                        fo = self.nodes[fo["sub"] if "sub" in fo else fo["args"][0]]
+                    if not (fo["k"] in ("construct", "valueinit") and strip_targs(fo.get("crec") or fo.get("t") or "").replace("const ", "").strip() == "std::plus"):
+                        self.bad(i, "accumulate with a callable other than std::plus")
+                if not (isinstance(b, ListIter) and isinstance(e, ListIter) and b.lst is e.lst and 0 <= b.pos <= e.pos <= len(b.lst)):
+                    self.bad(i, "accumulate over something else than one sequence")
+                for x in b.lst[b.pos:e.pos]:
+                    acc = acc + (int(x) if isinstance(x, bool) else x)
+                return acc
+            if cn == "std::count" and len(args) == 3:
+                b, e, v = self.eval(args[0]), self.eval(args[1]), self.eval(args[2])
+                if not (isinstance(b, ListIter) and isinstance(e, ListIter) and b.lst is e.lst and 0 <= b.pos <= e.pos <= len(b.lst)):
+                    self.bad(i, "count over something else than one sequence")
+                return sum(1 for x in b.lst[b.pos:e.pos] if x == v)
             if cn == "std::make_pair" and len(args) == 2:
                 return pair(self.eval(args[0]), self.eval(args[1]))
             if cn in ("std::conj", "conj") and len(args) == 1:
